@@ -72,6 +72,11 @@ class DynamicFields:
 
   def _define_field_methods(self, fieldname):
     """Define field methods for a single field"""
+    if hasattr(type(self), fieldname) or fieldname in self.__dict__:
+      # the accessors are not defined, if they would replace an attribute
+      # or method of the line (possible at validation level 0 only,
+      # where any string is accepted as tag name)
+      return
     def getter(self):
       return self.get(fieldname)
     def try_get(self):
